@@ -82,7 +82,8 @@ def main():
             print("   %s: %s" % (p, results[p]["tail"][-300:]))
         out_dir = os.path.join(HERE, "benign", a.name)
         os.makedirs(out_dir, exist_ok=True)
-        shutil.copy(patch, os.path.join(out_dir, "patch.diff"))
+        if os.path.abspath(patch) != os.path.abspath(os.path.join(out_dir, "patch.diff")):
+            shutil.copy(patch, os.path.join(out_dir, "patch.diff"))
         for v in results.values():
             v.pop("tail", None)
         meta.update({"name": a.name, "validated": not a.novalidate, "ran": ran, "checks": results, "alarms": alarms, "faults": faults,
